@@ -243,7 +243,7 @@ func checkC15(r *core.Run) {
 		}})
 	}
 	pairLayer(r, items)
-	class := []string{"a", "1", " ", ";", ":", "{", "}", "(", ")", "\"", "'", "\\", "/", "*", "@", "!", "<", "\n", ",", "-", "é", "\x00", "[", "]", "\f", "important", "url("}
+	class := []string{"#fff", "#", "rgb(0,0,0)", "rgb(", "hsl(", "10px", "1em", "50%", "calc(", "var(--x)", "a", "1", " ", ";", ":", "{", "}", "(", ")", "\"", "'", "\\", "/", "*", "@", "!", "<", "\n", ",", "-", "é", "\x00", "[", "]", "\f", "important", "url("}
 	// (a) every plain field: all byte strings <=1, class strings <=2; followed by another set field
 	for _, f := range c15Plain {
 		f := f
